@@ -9,7 +9,9 @@ loop, lists passed by value to user functions, lists shared between setup() and 
 RUN-TIME scalars (`x.remove(c + 1)`, c read from a sensor in every pass), LISTS RETURNED BY FUNCTIONS THAT RETURN ONE OF THEIR LIST
 ARGUMENTS (`x = sel(y, z, c)`: a by-value struct, i.e. a shallow copy of a list chosen at run time, assigned to a declared list; also `x = ident(y)`,
 `x = y`, `x = y if c > t else z`), len() INSIDE FUNCTION BODIES whose parameter carries the name of a global list of another length
-(`def h(l0): return l0[len(l0) - 1]` called with l1; `for i in range(len(l0))` over the parameter; len() of a global inside a function)) are
+(`def h(l0): return l0[len(l0) - 1]` called with l1; `for i in range(len(l0))` over the parameter; len() of a global inside a function), ONE if / elif / else (or try / except) STATEMENT IN FRONT OF THE
+MAIN LOOP whose arms append / remove constants and read `x[len(y) - k]` (an earlier arm changes the length of a list whose len() a later arm
+folds; the later arm is the one taken at run time; coq/Device/DListArm.v: the parser's constant environment with object identity)) are
   * run as statements by the extracted Coq model (coq/Wire/C09W.v: parser's choice of emitted form, the list helper
     templates as heap transformers, setup() + N passes of loop(), and the CPython reference semantics),
   * executed under real CPython (harness/impl/c09_impl.py: printed values, live list data after every phase),
@@ -33,7 +35,7 @@ from harness import fw
 META = {
     "id": "C09",
     "technique": "Coq proof (heap model of the emitted list helper templates with value semantics; unique-ownership invariant by induction over statements, blocks and passes for every declared-before-use program; simulation of the CPython reference semantics) + extracted-model correspondence with the real transpiler's firmware compiled with clang++ ASan/UBSan and an interposed allocation counter + CPython reference run + property oracle on the sanitizer verdict and per-pass heap usage",
-    "level_text": "Theorems C09_* (coq/Props/C09.v). Since the repair of __redu_list (rule of five: deep-copying copy constructor / copy assignment, buffer-stealing move constructor / move assignment, destructor) the model (coq/Device/DList.v, DListProg.v) gives lists VALUE semantics: C09_value_semantics_safe - for EVERY list program whose names are declared before they are used (guard value_ok: aliases `b = a`, by-value parameters the callee mutates, lists returned by functions incl. `a = ident(a)`, lists first assigned in the main loop, re-assignment from literals / comprehensions, ANY tuple assignment, run as the block of simple statements the compiler makes of them: every temporary / parameter is a variable with a copy constructor and a destructor) and EVERY history of passes the firmware either runs safely, every list variable then owning a distinct live block of exactly its size with NOTHING else live (no leak), or stops at an out-of-bounds index; never a use after free, never a double free (induction over statements, blocks and passes). The eight refutations of the ownership findings became C09_*_repaired (inside value_ok, CPython and firmware run, heap usage after pass 4 = after pass 1). Helper level: every list helper is safe iff Python's index condition holds and frees exactly what it replaces, also when the `const T&` argument of append/remove refers into a list buffer - of the same list included (C09_argument_alias_safe); copy assignment fills the new buffer before it releases the old one. Python simulation (heap usage = CPython's live data, no leak when it is constant): C09_python_safe_partial / C09_no_leak_partial / C09_history_* under single_owner (WITHOUT tuple assignments since the repair: their copy-based semantics is covered by C09_value_semantics_safe and by the oracle, the simulation proof was not redone), C09_len_fold_* (parser's parse-time list copies, folded len(); guard len_ok, also without tuple assignments), C09_shared_result_* (read-only sharing, guard frozen_ok). Still refuted (copies where Python aliases): C09_clone_divergence_refuted, C09_clone_out_of_bounds_refuted, C09_shared_result_heap_varies_refuted.",
+    "level_text": "Theorems C09_* (coq/Props/C09.v). Since the repair of __redu_list (rule of five: deep-copying copy constructor / copy assignment, buffer-stealing move constructor / move assignment, destructor) the model (coq/Device/DList.v, DListProg.v) gives lists VALUE semantics: C09_value_semantics_safe - for EVERY list program whose names are declared before they are used (guard value_ok: aliases `b = a`, by-value parameters the callee mutates, lists returned by functions incl. `a = ident(a)`, lists first assigned in the main loop, re-assignment from literals / comprehensions, ANY tuple assignment, run as the block of simple statements the compiler makes of them: every temporary / parameter is a variable with a copy constructor and a destructor) and EVERY history of passes the firmware either runs safely, every list variable then owning a distinct live block of exactly its size with NOTHING else live (no leak), or stops at an out-of-bounds index; never a use after free, never a double free (induction over statements, blocks and passes). The eight refutations of the ownership findings became C09_*_repaired (inside value_ok, CPython and firmware run, heap usage after pass 4 = after pass 1). Helper level: every list helper is safe iff Python's index condition holds and frees exactly what it replaces, also when the `const T&` argument of append/remove refers into a list buffer - of the same list included (C09_argument_alias_safe); copy assignment fills the new buffer before it releases the old one. Python simulation (heap usage = CPython's live data, no leak when it is constant): C09_python_safe_partial / C09_no_leak_partial / C09_history_* under single_owner (WITHOUT tuple assignments since the repair: their copy-based semantics is covered by C09_value_semantics_safe and by the oracle, the simulation proof was not redone), C09_len_fold_* (parser's parse-time list copies, folded len(); guard len_ok, also without tuple assignments), C09_shared_result_* (read-only sharing, guard frozen_ok). Sibling arms (coq/Device/DListArm.v, object-level model of the parser's dict of Python list objects: in-place append/remove, _copy_const_env allocates): C09_arms_folded_independently - for every well-formed parser state and every list of arms, arm k of an if / elif / else (try / except) statement is folded exactly as the arm ALONE from the snapshot in front of the statement (C09_arm_depends_on_snapshot_and_itself, C09_arms_after_setup), hence with the lengths of the straight-line program `statements in front + arm k` (C09_taken_arm_folded_like_its_path) to which C09_len_fold_safe_partial applies (C09_taken_arm_safe_partial); after the statement exactly the names some arm writes are forgotten (C09_after_arms_*); C09_arms_shared_copy_differs: the parser with one copy per statement folds the else arm with the first arm's appends. Still refuted (copies where Python aliases): C09_clone_divergence_refuted, C09_clone_out_of_bounds_refuted, C09_shared_result_heap_varies_refuted.",
     "level_note": "Trusted: Coq kernel, extraction (ExtrOcamlBasic), OCaml driver, mock Arduino core (operator new[]/delete[] interposed: live-block/byte counter), clang++ 14 AddressSanitizer/UBSan as the memory checker, CPython 3.12 as the reference. The theorems are about the Gallina heap model; the correspondence bounds its distance from emitter.py's LIST_HELPER_SNIPPET and parser.py's assignment lowering. Element values are ints; String buffers, C int overflow of range(), control flow around list statements and the heap behaviour of the real AVR allocator are outside the model.",
     "design_ref": "DESIGN.md section 4 C09",
 }
@@ -1579,22 +1581,22 @@ def gen_arm_part(rng, N, pattern, form=None, focus=True):
         arms, finals, writes, reads = [], [], [], []
         for j in range(n_arms):
             cur = {x: list(v) for x, v in base.items()}
-            arm, wr, rd = [], set(), set()
+            arm, wr, rd, force = [], set(), set(), []
             for _ in range(rng.choice([0, 1, 1, 2, 3])):
                 x = rng.choice([0, 1])
                 r = rng.random()
-                if r < 0.6:
+                if r < 0.55:
                     v = rng.choice([41, 42, 43, 44])
                     arm.append([3, x, v])
                     cur[x].append(v)
-                elif r < 0.85:
+                elif r < 0.8:
                     cand = [v for v in cur[x] if v not in cs]
                     if not cand or len(cur[x]) < 2:
                         continue
                     v = rng.choice(cand)
                     arm.append([4, x, v])
                     cur[x].remove(v)
-                elif r < 0.95:
+                elif r < 0.88:
                     off = rng.choice([51, 52])
                     arm.append([12, x, off])
                     cur[x].append(off)               # c0 = 0
@@ -1605,6 +1607,7 @@ def gen_arm_part(rng, N, pattern, form=None, focus=True):
                     v = rng.choice(cand)
                     arm.append([13, x, v])
                     cur[x].remove(v)
+                    force.append(x)
                 wr.add(x)
             for _ in range(rng.choice([1, 1, 2, 3])):
                 x = rng.choice(names)
@@ -1619,6 +1622,8 @@ def gen_arm_part(rng, N, pattern, form=None, focus=True):
                     continue
                 arm.insert(rng.randint(0, len(arm)) if rng.random() < 0.3 else len(arm), [14, x, y, 1 if sg else 0, k])
                 rd.add(y)
+            for x in force:
+                arm.append([14, x, x, 1, -1])       # the last element of a list a run-time remove has just shrunk
             if rng.random() < 0.3:
                 x = rng.choice(names)
                 if cur[x]:
@@ -1658,9 +1663,13 @@ def gen_arm_part(rng, N, pattern, form=None, focus=True):
         if form == "try-except":
             taken = 0
         elif focus:
-            if not pairs:
+            rt_arms = [j for j, a_ in enumerate(arms) if any(s_[0] == 13 for s_ in a_)]
+            if rt_arms and rng.random() < 0.5:
+                taken = rng.choice(rt_arms)
+            elif not pairs:
                 continue
-            taken = rng.choice(pairs)[1]
+            else:
+                taken = rng.choice(pairs)[1]
         else:
             taken = rng.randrange(n_arms)
         if form == "if-elif" and rng.random() < 0.15 and not focus:
@@ -1668,9 +1677,10 @@ def gen_arm_part(rng, N, pattern, form=None, focus=True):
         cur = finals[taken] if taken < n_arms else {x: list(v) for x, v in base.items()}
         # top-level reads AFTER the statement (the names some arm writes are forgotten there: run-time len)
         post = []
-        if rng.random() < 0.6:
+        wr_taken = sorted(writes[taken]) if taken < n_arms else []
+        if rng.random() < 0.7:
             for _ in range(rng.choice([1, 1, 2])):
-                x = rng.choice(names)
+                x = rng.choice(wr_taken) if wr_taken and rng.random() < 0.7 else rng.choice(names)
                 y = x if rng.random() < 0.75 else rng.choice(names)
                 nx, ny = len(cur[x]), len(cur[y])
                 if nx == 0:
@@ -1693,6 +1703,8 @@ def gen_arm_part(rng, N, pattern, form=None, focus=True):
             body = [[3, x, 61], [4, x, 61]]
         x = rng.choice([0, 1])
         y = x if rng.random() < 0.7 else rng.choice([0, 1])
+        if wr_taken and rng.random() < 0.5:
+            x = y = rng.choice(wr_taken)
         # lengths at the read position: the body is balanced, a read between the two halves sees one element more / less
         pos = rng.randint(0, len(body))
         env = {z: list(v) for z, v in cur.items()}
@@ -2319,7 +2331,12 @@ def run(ctx: C.Ctx):
                 "2-3 lists of pairwise DIFFERENT lengths (+ a list rotated by the run-time value), 2-4 calls r = h(x) of `def h(l_p): return l_p[len(l_y) + k]` / `l_p[k - len(l_y)]` whose parameter l_p is, two times out of "
                 "three, the NAME OF ANOTHER GLOBAL LIST (shadowing; else the argument's own name or a fresh name), y = the parameter (70 %) or a global, target index boundary-heavy, gates -1 / 0 / 1; 60 % a call of "
                 "`def walk(l_p): for i in range(len(l_p)): mon.write(l_p[i])` with a shadowing parameter of a LONGER global; the defs stand after every list declaration, right in front of `while True:`; fn-out calls a function "
-                "that reads len() of a global once before and once after that global shrank. Every "
+                "that reads len() of a global once before and once after that global shrank; (h) kind arm-* (coq/Device/DListArm.v, wire mode 3, one sketch per program): two literal lists (l0 holds every run-time value of the input pattern) "
+                "and 30 % a comprehension list, 0-2 constant appends / removes at top level, c0 = p.read() (first reading, 0), then ONE statement of the form if-else / if-elif-else / if-elif (2-3 arms) / try-except whose arms hold 0-3 of "
+                "append(const) 55 % / remove(const of the list) 25 % / append(c0 + off) 8 % / remove(c0 + off) 12 % (run-time argument: the name loses its copy; a run-time remove is followed by a read of the list's last element and its arm is then often the taken one) and 1-3 reads x[len(y) + k] / x[k - len(y)] (y = x 75 %; target index last (3x), first, -1, -len, random; "
+                "valid for the lists as THAT arm leaves them; 30 % placed in front of the arm's mutations) plus 30 % a plain read; three programs out of four are FOCUSED: an earlier arm changes the length of a list whose len() a later arm folds and the later arm is the one taken "
+                "(selected by `mode = k` / `mode == j` conditions or by comparisons of the run-time c0; try-except: the try arm runs, the except arm is only compared statically); 70 % 1-2 len() reads AFTER the statement (names written in some arm are forgotten there; 70 % of them on a list the TAKEN arm wrote); "
+                "then a balanced main loop (rotation by the run-time value / append+remove of a fresh constant / nothing) with one len() read of a list the loop does not write. Every "
                 "part is classified by the model; parts it expects to run safely are batched 10 per sketch (disjoint names), the others "
                 "run one per sketch (quick tier: a seeded sample). evaluations = phases (setup + passes) of in-guard exception-free "
                 "sketches judged by the oracle + 1 per other sketch compared; distinct non-trivial = distinct parts with more than 2 statements.",
@@ -2330,7 +2347,8 @@ def run(ctx: C.Ctx):
         "exhaustive": False,
         "exhaustive_part": f"loop bodies of length <= {3 if thorough else 2} over the 16-statement alphabet (classified by the model; "
                       f"{'all' if thorough else 'a seeded sample of the unsafe ones'} run on the firmware)",
-        "guard": "FULL domain (memory-safety clause and leak clause): single_owner OR len_ok OR frozen_ok (harness guard_so / track_py / guard_fz, each cross-checked against the model's bit on every case) OR "
+        "guard": "Arm programs: len_ok of the TAKEN PATH (statements in front of the if / try statement + the statements of the arm taken at run time + the statements after it; the model's bit) AND CPython raises nothing: memory-safety and leak clause. "
+                 "FULL domain (memory-safety clause and leak clause): single_owner OR len_ok OR frozen_ok (harness guard_so / track_py / guard_fz, each cross-checked against the model's bit on every case) OR "
                  "[value_ok (harness guard_vs, cross-checked against the model's bit: every name is declared when a statement uses it) AND CPython's run equals, name by name after every statement, the run with VALUE "
                  "semantics (harness sim2: no alias is ever observable)]. SAFETY-ONLY domain (memory-safety clause): value_ok AND CPython raises nothing AND the value-semantics run indexes inside its lists - `b = a` then "
                  "mutation, by-value parameters the callee mutates, `x = ident(y)`, tuple assignments with repeated names; the leak clause is not judged there and an index that is valid in CPython only because of an alias is "
@@ -2348,7 +2366,9 @@ def run(ctx: C.Ctx):
                        "are exercised (family *-strings: rotations through own elements, elements of other lists, permutations, reads) and compared with the model on "
                        "printed values, live blocks and live bytes (32 bytes per String + 8 per block under the mock)",
                        "C int overflow in __redu_list_from_range's counting loop; element type conversions (static_cast<T>)",
-                       "control flow other than `if <run-time value> > <const>:` around single list statements of the main loop (for / while / nested if / else); declarations inside conditionals",
+                       "control flow other than `if <run-time value> > <const>:` around single list statements of the main loop and ONE if / elif / else or try / except statement with straight-line arms in front of the main loop: "
+                       "for / while in front of the main loop, statements nested inside arms, multi-arm statements inside the main loop or inside function bodies (there every list the block writes is already forgotten: run-time len), declarations inside conditionals; "
+                       "an except arm never runs on the device (`raise` is rejected, list helpers do not throw): its folded lengths are compared with the model statically (correspondence), no run can fail there",
                        "subscript stores `a[i] = v` (the transpiler drops the line: C07's domain; the model keeps list_set as a helper-level operation only)",
                        "allocator behaviour of the real AVR heap (fragmentation, new[] failure); out-of-bounds reads that ASan cannot see "
                        "(1-4 ints before the buffer fall into the mock counter's own header: counted in distribution.oob_not_detected_by_asan)",
